@@ -141,7 +141,18 @@ class LockDomain(Domain):
                 if hd != depth or hc.startswith('@'):
                     continue
                 if hc == cls and conflict(hm, mode) and base_class(cls) not in MULTI_INSTANCE:
-                    self.selfacq.setdefault((cls, hm, mode), []).append(site)
+                    # the route: the first function the rule tables know that the holder calls on the way to this
+                    # request (stable when the requesting code is inlined into / split off from its callers)
+                    self.known_owner(fr)
+                    names = [c.split('@')[0] for c in fr.chain]
+                    via = None
+                    if hfn in names:
+                        i = len(names) - 1 - names[::-1].index(hfn)
+                        for n in names[i + 1:]:
+                            if self._known_short is None or n in self._known_short:
+                                via = n
+                                break
+                    self.selfacq.setdefault((cls, hm, mode), []).append((site[0], via or site[1], site[2]))
                 e = self.edges.setdefault((hc, hm, cls, mode), {'sites': [], 'gap': False, 'holders': set()})
                 e['sites'].append(site)
                 e['gap'] = e['gap'] or gap
